@@ -256,7 +256,7 @@ impl Campaign for C06 {
     fn runs(&self, tier: Tier) -> u64 {
         match tier {
             Tier::Quick => 20_000,
-            Tier::Thorough => 3_000_000,
+            Tier::Thorough => 1_200_000,
         }
     }
 
